@@ -74,7 +74,7 @@ static string libc_u(F f, const string &t, int base) {
   errno = 0;
   unsigned long long v = f(t.c_str(), &end, base);
   int e = errno;
-  return "v=" + udec(v) + ";e=" + (e == ERANGE ? "1" : (e == 0 ? "0" : "other")) + ";end=" +
+  return "lv=" + udec(v) + ";le=" + (e == ERANGE ? "1" : (e == 0 ? "0" : "other")) + ";lend=" +
       udec(end - t.c_str());
 }
 template <typename F>
@@ -83,7 +83,7 @@ static string libc_s(F f, const string &t, int base) {
   errno = 0;
   long long v = f(t.c_str(), &end, base);
   int e = errno;
-  return "v=" + sdec(v) + ";e=" + (e == ERANGE ? "1" : (e == 0 ? "0" : "other")) + ";end=" +
+  return "lv=" + sdec(v) + ";le=" + (e == ERANGE ? "1" : (e == 0 ? "0" : "other")) + ";lend=" +
       udec(end - t.c_str());
 }
 
@@ -252,7 +252,7 @@ static string handle(const string &p) {
     struct in_addr raw;
     // the bare libc call on the same C string (validates Libc.inet_pton4)
     bool rok = inet_pton(AF_INET, t.c_str(), &raw) == 1;
-    string r = string("raw=") + (rok ? vh::hex(reinterpret_cast<uint8_t*>(&raw), 4) : "none");
+    string r = string("lraw=") + (rok ? vh::hex(reinterpret_cast<uint8_t*>(&raw), 4) : "none");
     if (!ola::network::IPV4Address::FromString(t, &ip)) return r + ";ok=0";
     uint32_t v = ip.AsInt();
     return r + ";ok=1;a=" + vh::hex(reinterpret_cast<uint8_t*>(&v), 4);
@@ -325,7 +325,7 @@ static string handle(const string &p) {
     uuid_t raw;
     bool rok = uuid_parse(t.c_str(), raw) == 0;   // validates Libc.uuid_parse
     return "a=" + vh::hex(b, sizeof(b)) + ";s=" + hx(c.ToString()) + ";nil=" + (c.IsNil() ? "1" : "0") +
-        ";raw=" + (rok ? vh::hex(raw, 16) : string("none"));
+        ";lraw=" + (rok ? vh::hex(raw, 16) : string("none"));
   }
   if (op == "cidv") {
     vector<uint8_t> d = vh::unhex(a[1]);
@@ -340,7 +340,7 @@ static string handle(const string &p) {
   if (op == "strtoul") return libc_u(strtoul, text_of(a[2]), vh::num(a[1]));
   if (op == "strtoll") return libc_s(strtoll, text_of(a[2]), vh::num(a[1]));
   if (op == "strtol") return libc_s(strtol, text_of(a[2]), vh::num(a[1]));
-  if (op == "atoi") return "v=" + sdec(atoi(text_of(a[1]).c_str()));
+  if (op == "atoi") return "lv=" + sdec(atoi(text_of(a[1]).c_str()));
   if (op == "split") {
     vector<string> tokens;
     ola::StringSplit(text_of(a[2]), &tokens, text_of(a[1]));
